@@ -74,7 +74,7 @@ def generate(rng, tier, n):
         preset = rng.choice(PRESETS)
         threads = rng.choice([1, 4])
         unit = None
-        if rng.random() < 0.15:
+        if rng.random() < 0.2:
             t, unit = tiny_unit(rng, t)
         cb = CaseBuilder(cid, t, {"stats": st, "preset": preset, "threads": threads, "unit": unit})
         cb.meta["runs"] = []
@@ -83,6 +83,8 @@ def generate(rng, tier, n):
             s = cb.solve("full", T, 0.0, threads, preset, kind="solve_long" if long_ else "solve")
             cb.info(s, kind="info_long" if long_ else "info")
             cb.meta["runs"].append((T, len(cb.ops) - 2))
+            if not long_:
+                cb.named(s)      # the strategies themselves (probabilities do not shrink with the payoff unit)
         cases.append(cb)
         cid += 1
     return cases
